@@ -357,6 +357,16 @@ func (w *World) VerifyFunc(fs *FuncSpec) {
 					if gi.Pkg != fs.Pkg {
 						continue
 					}
+					// only the tables this function is responsible for (listed in its assigns)
+					mine := false
+					for _, a := range x.assigns {
+						if a.kind == "all" || (a.kind == "global" && a.g.Name() == gi.Name) {
+							mine = true
+						}
+					}
+					if !mine {
+						continue
+					}
 					gev := &Env{W: w, st: s, pkg: fn.Pkg, bound: map[string]SVal{}}
 					t, err := gev.EvalBool(gi.E)
 					if err != nil {
@@ -689,6 +699,8 @@ func (x *Exec) checkInvariants(st *State, fr *frame, lp *Loop, phase string) {
 	x.invPos, x.invLoop = lp.BodyPos, lp
 	ev := x.funcEnv(fr.fi, "inv", st, x.entryFor(fr), x.argsFor(fr), nil)
 	n := 0
+	saved := x.hints
+	defer func() { x.hints = saved }()
 	for _, c := range ls.Clauses {
 		if c.Kind != "invariant" {
 			continue
@@ -697,6 +709,36 @@ func (x *Exec) checkInvariants(st *State, fr *frame, lp *Loop, phase string) {
 		t, err := ev.EvalBool(c.E)
 		if err != nil {
 			vfail("%s: invariant %s: %v", c.Line, c.Text, err)
+		}
+		x.hints = saved
+		if phase == "entry" {
+			// splitentry#n / revealentry#n: hints for the entry obligation of invariant n, evaluated
+			// in the state before the loop (skipped where the expression is not live)
+			h := saved.clone()
+			for _, hc := range ls.Clauses {
+				tag := fmt.Sprintf("#%d", n)
+				switch {
+				case hc.Kind == "splitentry"+tag || hc.Kind == "splitentry":
+					f := strings.Fields(hc.Text)
+					if len(f) >= 3 {
+						var lo, hi int64
+						fmt.Sscanf(f[len(f)-2], "%d", &lo)
+						fmt.Sscanf(f[len(f)-1], "%d", &hi)
+						if e, err := ParseExpr(strings.Join(f[:len(f)-2], " ")); err == nil {
+							if v, err := ev.EvalVal(e); err == nil {
+								if si, ok := v.(SInt); ok {
+									h.Splits = append(h.Splits, Split{si.T, lo, hi})
+								}
+							}
+						}
+					}
+				case hc.Kind == "revealentry"+tag || hc.Kind == "revealentry":
+					for _, nm := range strings.Fields(strings.ReplaceAll(hc.Text, ",", " ")) {
+						h.Reveal[nm] = true
+					}
+				}
+			}
+			x.hints = h
 		}
 		x.oblige(st, fmt.Sprintf("loop%d/inv#%d/%s", lp.Ordinal, n, phase), suffixFn(fr, x), c.Text, lp.Pos, t)
 	}
